@@ -1,0 +1,46 @@
+//! Snapshot accessors for the verification harness (compiled only with `--cfg cached_verif`).
+use crate::cache::cached::CacheD;
+use crate::cache::verif::Snapshot;
+
+impl CacheD<u64, u64> {
+    /// The complete internal state in canonical form. Only meaningful while no other thread is inside the cache.
+    pub fn verif_snapshot(&self) -> Snapshot {
+        let stats_counter = self.store.stats_counter();
+        let (rows, seeds, total_counters, total_increments, reset_counters_at) = self.admission_policy.verif_lfu(|lfu| {
+            (lfu.verif_rows(), lfu.verif_seeds(), lfu.verif_total_counters(), lfu.verif_total_increments(), lfu.verif_reset_counters_at())
+        });
+        Snapshot {
+            store: self.store.verif_entries(),
+            weights: self.admission_policy.verif_weight_entries(),
+            weight_used: self.admission_policy.weight_used(),
+            ticker: self.ttl_ticker.verif_entries(),
+            stats: stats_counter.verif_all(),
+            hit_ratio: stats_counter.hit_ratio(),
+            queue_len: self.command_executor.verif_queue_len(),
+            pool: self.pool.verif_buffers(),
+            chan_len: self.admission_policy.verif_chan_len(),
+            rows,
+            seeds,
+            total_counters,
+            total_increments,
+            reset_counters_at,
+            next_id: self.id_generator.verif_peek(),
+            is_shutting_down: self.is_shutting_down(),
+        }
+    }
+
+    /// Replaces the random row seeds of the sketch (so that runs are reproducible).
+    pub fn verif_set_seeds(&self, seeds: [u64; 4]) {
+        self.admission_policy.verif_set_seeds(seeds);
+    }
+
+    /// The frequency estimate the admission policy would use for a hash.
+    pub fn verif_estimate(&self, key_hash: u64) -> u8 {
+        self.admission_policy.estimate(key_hash)
+    }
+
+    /// The weight charged for a key id, if any.
+    pub fn verif_weight_of(&self, key_id: u64) -> Option<i64> {
+        self.admission_policy.weight_of(&key_id)
+    }
+}
